@@ -786,7 +786,9 @@ var specials = []struct {
 	{"comment-only", "\n\n# comment after blank lines\n#\n"},
 }
 
-var fileNames = []string{"name.pl", "tool_7.pl", "x.pl", "lib/dir/deep_one.pl", "/abs/path/to/Abs2.pl", "./rel.pl", "UPPER.pl", "_under.pl", "noext", "other.perl", "a1b2c3.pl"}
+var fileNames = []string{"name.pl", "tool_7.pl", "x.pl", "lib/dir/deep_one.pl", "/abs/path/to/Abs2.pl", "./rel.pl", "UPPER.pl", "_under.pl", "noext", "other.perl", "a1b2c3.pl",
+	// base names with more than one dot: only the LAST extension goes (bash accepts dots in function names, dash does not)
+	"report.daily.pl", "a.b.c.pl", "lib.v2/x.y.perl", "tool-1.0.pl"}
 
 func genLead(g *gen) string {
 	r := g.rng
@@ -820,6 +822,11 @@ func genLead(g *gen) string {
 		"# " + strings.Repeat(g.word()+" ", 1+r.IntN(30)),
 	}
 	n := r.IntN(6)
+	if r.IntN(12) == 0 {
+		// a long licence / usage header: 100-400 comment lines
+		n = 100 + r.IntN(300)
+		g.mark("lead-comments-over-100-lines")
+	}
 	for i := 0; i < n; i++ {
 		c := pool[r.IntN(len(pool))]
 		if c == "#!not-a-shebang-here" && len(l) == 0 {
